@@ -227,7 +227,7 @@ for _p, _t in (('C01', 'mutual exclusion, lost-update and trylock oracles'), ('C
 
 # ---- real-thread sub-checks (TSan happens-before oracle on c11/sim, outcome oracles on plain builds) ----
 for _cfg in ('gcc-tsan-c11', 'gcc-tsan-sim', 'gcc-plain-c11', 'gcc-plain-sync', 'gcc-plain-sim'):
-    harness('rt_' + _cfg.replace('gcc-', '').replace('-', '_'), 'engines/rthreads/rthreads.cpp', _cfg)
+    harness('rt_' + _cfg.replace('gcc-', '').replace('-', '_'), 'engines/rthreads/rthreads.cpp', _cfg, libs='-lrapidcheck -lcrypto')
 def _rtsubs(kinds, qcases, tcases):
     subs = []
     for cfg, tsan in (('tsan_c11', 1), ('tsan_sim', 1), ('plain_c11', 0), ('plain_sync', 0), ('plain_sim', 0)):
@@ -374,9 +374,9 @@ for _pid, _h, _ml in (('C12', 'tree_fuzz', 1024), ('C13', 'tree_fuzz', 1024), ('
 ENGINES.append(dict(name='fuzz', path='engines/seq (built with -DVERIF_FUZZ)', serves_properties=['C11', 'C12', 'C13', 'C14', 'C15', 'C16', 'C17'], kind_free_text='libFuzzer targets sharing case structure and oracle with the rapidcheck harnesses'))
 
 # ---- real-thread sub-checks for C02 / C03 / C05 (TSan happens-before oracle + outcome oracles) ---------------
-harness('rt_tsan_general', 'engines/rthreads/rthreads.cpp', 'gcc-tsan-general')
-harness('rt_asan_c11', 'engines/rthreads/rthreads.cpp', 'gcc-asan')
-harness('rt_asan_general', 'engines/rthreads/rthreads.cpp', 'gcc-asan-general')
+harness('rt_tsan_general', 'engines/rthreads/rthreads.cpp', 'gcc-tsan-general', libs='-lrapidcheck -lcrypto')
+harness('rt_asan_c11', 'engines/rthreads/rthreads.cpp', 'gcc-asan', libs='-lrapidcheck -lcrypto')
+harness('rt_asan_general', 'engines/rthreads/rthreads.cpp', 'gcc-asan-general', libs='-lrapidcheck -lcrypto')
 def _rt2(kinds, cfgs, q, t):
     return [Sub('rt_' + c, 'rt_' + c, shards=(1, 2), cases=(q, t), maxsize=(100, 100), kind='stress', env={'VERIF_KINDS': kinds, 'VERIF_CONFIG_TSAN': 1 if 'tsan' in c or 'asan' in c else 0}, timeout=(900, 3600)) for c in cfgs]
 PROPS['C02'].subs += _rt2('rwrec', ['tsan_c11', 'tsan_general', 'plain_c11'], 25, 150)
@@ -384,6 +384,7 @@ PROPS['C02'].subs += [Sub('rt_many_' + c, 'rt_' + c, shards=(1, 1), cases=(60, 4
 PROPS['C03'].subs += _rt2('bbuf', ['tsan_c11', 'plain_c11'], 12, 200)
 PROPS['C03'].subs += [Sub('rt_burst_' + c, 'rt_' + c, shards=(1, 1), cases=(2, 6), maxsize=(100, 100), kind='stress', env={'VERIF_KINDS': 'sigburst', 'VERIF_CONFIG_TSAN': 0}, timeout=(900, 3600)) for c in ('plain_c11',)]
 PROPS['C05'].subs += _rt2('thr', ['tsan_c11', 'asan_c11', 'plain_c11'], 20, 150)
+PROPS['C06'].subs += [Sub('rt_open_' + c, 'rt_' + c, shards=(1, 2), cases=(12, 80), maxsize=(100, 100), kind='stress', env={'VERIF_KINDS': 'semopen', 'VERIF_CONFIG_TSAN': 1 if 'tsan' in c else 0}, timeout=(900, 3600)) for c in ('tsan_c11', 'plain_c11')]
 PROPS['C02'].rule += ' Many-holds sub-check (native and general model, ASan): 1 .. 16385 simultaneous read holds (powers of two and neighbours; lock and trylock alternating): a writer trylock is refused while any hold is outstanding and admitted when all are released. Real-thread sub-checks: generated (threads, rounds, noise) reader/writer programs on real threads under ThreadSanitizer for the native and the general implementation, plus a plain -O2 run: record race or lost update = violation.'
 PROPS['C03'].rule += ' Real-thread sub-checks: generated bounded-buffer programs (capacity 1-3, signal/broadcast by seed) on real threads under ThreadSanitizer and plain -O2: items conserved, no race report.'
 PROPS['C05'].rule += ' Real-thread sub-checks: rounds of create/ref/unref/join with exit codes, plain result stores read after join and TLS set/replace with a counting notifier, under ThreadSanitizer, ASan and plain -O2.'
@@ -412,7 +413,7 @@ _ADD6 = {
  'C02': ' Reader-behind-waiting-writer sub-check (real threads): reader A holds, writer W sleeps inside writer_lock, reader B calls reader_lock - verdict by state: B sleeps in a futex wait (two looks one second apart) while only A holds the lock.',
  'C01': ' Long-hold litmus: every case holds the spinlock (until the waiter burnt the hold time in CPU) and then the mutex (whole hold time on the wall clock, the waiter asleep in its lock call).',
  'C05': ' Every real-thread round also runs a thread not started by plibsys that calls p_uthread_current twice (same handle), with an explicit reference kept across its exit / dropped before it / none (sanitizers decide a handle released early).',
- 'C06': ' The race step alternates OPEN-mode and CREATE-mode opens parked at pause points 1..6 while the owner frees the name: a CREATE-mode open succeeds at every point and carries the given value while its name exists (enumerated).',
+ 'C06': ' The race step alternates OPEN-mode and CREATE-mode opens parked at pause points 1..6 while the owner frees the name: a CREATE-mode open succeeds at every point and carries the given value while its name exists (enumerated). Real-thread sub-check (plain and ThreadSanitizer): 2-8 threads of one process, released together, each OPEN the name, release one unit and free the handle R times while a second name is opened and freed: every open succeeds and the platform counter behind the name holds exactly T*R units (no waiting involved).',
  'C08': ' Every read buffer carries a canary behind the reported count: bytes beyond min(len, used) are not the read\'s to write.',
  'C09': ' Every other datagram read goes through p_socket_receive; a reported count above the buffer length is a violation; the SHORT fault does not apply to datagram sockets.',
  'C12': ' Values of keys k % 3 == 1 may be NULL pointers (notif bit 4, trees without value notifier); op F inserts with every library allocation failing (a new key is not stored, an equal key is replaced).',
